@@ -89,6 +89,16 @@ finding(id="KF-C10-ediff1d-size1", property="C10", status="open",
                "when": "fn == 'ediff1d' and arg_size[0] <= 1"},
         witness=witness(w_ediff1d))
 
+finding(id="KF-C12-diff-empty-poison", property="C12", status="open",
+        what="diff whose result is empty returns coefficients that were never written (uninitialised memory, visible as the 0xA5 pattern under the poisoning allocator); same root cause as KF-C10-diff-empty",
+        match={"act": "reduce", "clauses": ["poison"],
+               "when": "fn == 'diff' and n > 0 and n >= arg_shape[0][axes[0]] + sum([(s[axes[0]] if len(s) else 1) for s in arg_shape[1:]])"},
+        witness=witness(w_diff_empty))
+finding(id="KF-C12-ediff1d-size1-poison", property="C12", status="open",
+        what="ediff1d of an array with fewer than two elements returns an element of uninitialised memory; same root cause as KF-C10-ediff1d-size1",
+        match={"act": "reduce", "clauses": ["poison"], "when": "fn == 'ediff1d' and arg_size[0] <= 1"},
+        witness=witness(w_ediff1d))
+
 # --------------------------------------------------------------------- fixed
 FIXED = [
     ("C01", "8ccbe55", "power with an array exponent: transposed / wrongly broadcast result for 3-d operands and for base and exponent of different ndim"),
@@ -105,6 +115,8 @@ FIXED = [
     ("C02", "958beb8", "evaluation with a Python int argument: OverflowError for negative values ((q0**2)(-1)), silent uint32 wrap for large ones ((q0**2)(2**17) == 0)"),
     ("C06", "c9c09e7", "hessian had shape (D', D) + p.shape with D' < D when retain_names is off"),
     ("C06", "6cbef29", "derivative stored terms free of the variable with exponent 2**32-1 (storage key code point 58) under retain_coefficients=True"),
+    ("C12", "f1457b8", "multiply returned uninitialised coefficients unless the product dtype was bool/uint32/int64/float64/complex128, and failed (UnicodeDecodeError / wrong key) for exponent sums >= 69 (also C20)"),
+    ("C12", "786c41b", "align_shape promoted every broadcast operand to int64/float64, so + and - between small dtypes of different shapes returned the wrong dtype"),
     ("C03", "64ca5a4", "monomial over an empty index range in D > 1 dimensions returned an object whose storage key width (1) did not match its D names"),
 ]
 
